@@ -270,6 +270,20 @@ pub fn c06(cx: &Ctx) -> (Vec<Violation>, Cover) {
     }
     let mut v: Vec<Violation> =
         discrepancies(cx).iter().filter(|d| d.revoke_related).map(|d| to_violation("C06", a, d)).collect();
+    // removal / despawn triggers named by a revocation must not schedule the reactor again either; neighbours keep
+    // working: polled discrepancies of instances / keys that a revocation touched earlier
+    for d in super::polled::polled_discrepancies(cx) {
+        let trig_matches = |t: &RTrig| match (d.key, t) {
+            (Key::Rem(c, e), RTrig::ERem(e2, c2)) => c == *c2 && e == *e2,
+            (Key::Rem(c, _), RTrig::Rem(c2)) => c == *c2,
+            (Key::Desp(e), RTrig::Desp(e2)) => e == *e2,
+            _ => false,
+        };
+        let related = a.regs.iter().any(|r| trig_matches(&r.trig) && matches!(r.end, Some((p, EndWhy::Revoked)) if p < d.pos.max(a.ops.get(d.op).and_then(|o| o.poll_end).unwrap_or(d.pos))));
+        if related {
+            v.push(Violation::new("C06", format!("C06/polled-trigger/{}/{}", d.what, d.class), d.msg.clone(), d.pos));
+        }
+    }
     // table sizes at quiescent points: revoked entries are really gone, neighbours kept
     v.extend(table_check(cx, "C06", true));
     // ... and immediately: the tables sampled right before / after every revocation command agree with the ledger
@@ -474,6 +488,12 @@ pub fn c15(cx: &Ctx) -> (Vec<Violation>, Cover) {
     }
     // ledger exactness restricted to once instances
     v.extend(discrepancies(cx).iter().filter(|d| d.once).map(|d| to_violation("C15", a, d)));
+    // ... and the same for their removal / despawn triggers, which are detected by polling
+    for d in super::polled::polled_discrepancies(cx) {
+        if a.insts.get(d.inst).map(|i| i.kind == SysKindTag::Once).unwrap_or(false) {
+            v.push(Violation::new("C15", format!("C15/polled-trigger/{}/{}", d.what, d.class), d.msg.clone(), d.pos));
+        }
+    }
     // registrations of finished once reactors are gone from the tables
     if cov.relevant {
         v.extend(table_check(cx, "C15", false));
